@@ -139,7 +139,30 @@ class Printed:
         return [w for w in self.warnings if 'raised an exception' in w]
 
 
-def pp(value, **cfg):
+class NoTermination(Exception):
+    """pformat did not finish within the budget of executed lines (see steps.guarded)"""
+
+
+GUARD_CAP = 3 * 10 ** 6      # package lines; the largest legitimate print of any check is ~ 3 * 10^5
+GUARD_CPU = 8.0              # seconds of CPU after which the call is repeated under the step meter
+
+
+def pp(value, guard=True, **cfg):
+    """pformat with recorded warnings.  Unless guard=False (callers that meter themselves) or not in the main thread, a
+    runaway call is abandoned after GUARD_CPU seconds of CPU time and re-decided by the step meter: exceeding
+    GUARD_CAP lines is returned as exc=NoTermination, which every check reports."""
+    if guard:
+        import threading
+        if threading.current_thread() is threading.main_thread():
+            from . import steps
+            res, exceeded = steps.guarded(lambda: _pp(value, **cfg), cap=GUARD_CAP, cpu_seconds=GUARD_CPU)
+            if exceeded:
+                return Printed(None, [], NoTermination('more than %d package lines' % GUARD_CAP))
+            return res
+    return _pp(value, **cfg)
+
+
+def _pp(value, **cfg):
     from prettyprinter import pformat
     with warnings.catch_warnings(record=True) as ws:
         warnings.simplefilter('always')
